@@ -17,18 +17,12 @@ ASSUMPTIONS = [
 
 SYS = "Base Scope Types Prog Pop Token Authorize System Config"
 
-PROPS = {
-    "C04": {
-        "suites": ["c04fn", "c04flow"],
-        "clauses": {1: "a token response, introspection answer or userinfo reports scopes outside what was granted",
-                    2: "a grant or response type was served to a client not registered for it"},
-        "title": "Issued tokens never exceed what was granted or what the client may ask for",
-        "text": "Theorems over the hand-written model: scope_whole_entry (for all registration strings, server scope lists incl. prefix scopes and request strings, AreScopesAllowed accepts iff every entry is matched by a server scope whose id is a whole entry of the registration) and issued_within_grant (invariant over every reachable state of every history, any configuration, refresh chains of any length: active scopes are contained in granted scopes). Correspondence: clientutil.AreScopesAllowed is called directly on thousands of generated triples and compared with the model; flow-level histories (all grant types, refresh chains with sub/supersets) are run on the real provider and compared with the model's trace; the property monitor is evaluated on the implementation's trace.",
-        "note": "Resources and authorization details are not in the model (harness never sends them); identity_truthful is covered by correspondence (sub/client_id compared at introspection and userinfo) and monitor clause 1 only.",
-        "technique": "Coq proof (invariant by induction over operation histories + decision-rule equivalence) tied to the code by differential correspondence on generated inputs",
-        "design_ref": "DESIGN.md section 6, C04",
-    },
-}
+import glob, os, importlib.util
+PROPS = {}
+for _f in sorted(glob.glob(os.path.join(os.path.dirname(os.path.abspath(__file__)), 'conf', 'C*.py'))):
+    _spec = importlib.util.spec_from_file_location('conf_' + os.path.basename(_f)[:-3], _f)
+    _m = importlib.util.module_from_spec(_spec); _spec.loader.exec_module(_m)
+    PROPS[os.path.basename(_f)[:-3]] = _m.PROP
 
 # properties not (yet) claimed, each with a reason
 NOT_APPLICABLE = {p: "not yet covered by the machinery in this commit (model, theorems and correspondence suite under construction; see DESIGN.md section 10)"
